@@ -109,6 +109,7 @@ func runOne(p *Property, sc *Scenario, d RunDesc, thorough bool) (res RunResult)
 			}()
 			synctest.Test(theT, func(t *testing.T) {
 				e.wake = make(chan struct{}, 1)
+				e.baseG = runtime.NumGoroutine()
 				start := time.Now()
 				body()
 				e.simSpan = time.Since(start)
@@ -199,6 +200,29 @@ func (e *Env) Quiesce() bool {
 	if !e.inBub {
 		return true
 	}
+	if e.libParks.Load() == 0 && !e.forceDump {
+		// Nobody is held by the engine inside library code, so nothing can be
+		// waiting on a lock such a goroutine holds: durable blocking is the only
+		// stable state.
+		synctest.Wait()
+		return true
+	}
+	for i := 0; i < 4; i++ {
+		runtime.Gosched()
+		if int(e.seamParks.Load()) == runtime.NumGoroutine()-e.baseG {
+			// every other goroutine of the bubble sits at a harness seam
+			synctest.Wait()
+			return true
+		}
+	}
+	return e.quiesceByDump()
+}
+
+// quiesceByDump polls goroutine states from a full stack dump (expensive; only
+// needed while the engine holds a goroutine parked inside library code and some
+// other goroutine is not at a seam).
+func (e *Env) quiesceByDump() bool {
+	e.Probe("quiesce-by-dump")
 	for spin := 0; ; spin++ {
 		runtime.Gosched()
 		gs := dumpGoroutines()
